@@ -1,0 +1,8 @@
+//go:build !verif
+
+package dicescript
+
+// No-op counterparts of the verification work meter (see verif_meter_on.go, build tag verif).
+func verifMeterDispatch() {}
+func verifMeterRoll()     {}
+func verifMeterFate()     {}
